@@ -103,7 +103,7 @@ def formula_mentions(doc, tref, cid, target, _seen=None):
   if cid in seen:
     return False
   seen.add(cid)
-  allf = {x['colId']: (x['formula'] or '') for x in doc.columns(tref) if x['isFormula']}
+  allf = {x['colId']: x['formula'] for x in doc.columns(tref) if x['formula']}     # (trigger formulas included)
   toks = set(_re.findall(r'[A-Za-z_]\w*', allf.get(cid, '')))
   if target in toks or toks & set(['lookupRecords', 'lookupOne', 'all', 'PREVIOUS', 'NEXT', 'RANK', 'rec', 'RECORD']):
     return True
